@@ -869,8 +869,8 @@ def chain_family(rq, rt):
 
 
 def chain_model(**over):
-    return dict(module="Chain", name="chain", spec="FairSpec", constants=dict(Depth=2, Delays="{0, 1}", Deadline=3, MaxTime=6, GateBudget=1, **over),
-                quick={}, thorough=dict(Depth=3, MaxTime=6), invariants=["Inv_C07", "Inv_C18", "Inv_AbortCause"],
+    return dict(module="Chain", name="chain", spec="FairSpec", constants=dict(Depth=2, Delays="{0, 1}", Deadline=3, MaxTime=6, GateBudget=1, ExtendBy=2, **over),
+                quick={}, thorough=dict(Depth=3, MaxTime=5), invariants=["Inv_C07", "Inv_C18", "Inv_AbortCause"],
                 properties=["Live_Cascade"], coverage=False, timeout_thorough=2400)
 
 
